@@ -7,6 +7,7 @@ import NPModel.Refine.GetItem
 import NPModel.Refine.Take
 import NPModel.Refine.Slices
 import NPModel.Refine.TakeFill
+import NPModel.Refine.DropNa
 namespace NP.C05
 open NP
 variable {α : Type}
@@ -77,6 +78,12 @@ theorem take_fill_refines (c : PCol α) (hw : c.WF = true) (ha : c.aligned) (ind
 example : Spec.conformRow [("a", "int64"), ("b", "int64")] (none : Row Nat) = some none ∧
     Spec.conformRow [("a", "int64"), ("b", "int64")] (some [("a", [1, 2]), ("b", [3, 4])])
       = some (some [("a", [1, 2]), ("b", [3, 4])]) := by decide
+
+/-- **`dropna` drops exactly the missing rows**, in order, on validated storage in any layout; the
+    result passes the constructor's validation (a column left with no chunk is one empty chunk). -/
+theorem dropna_refines (c : PCol α) (hw : c.WF = true) (ha : c.aligned) :
+    (NArr.dropna c).map PCol.rows = .ok (Spec.dropna c.rows) :=
+  NP.dropna_refines c hw ha
 
 /-- **Concatenation is `++`**: the chunks of all inputs in order, validated. -/
 theorem concat_is_append (ty : List (String × String)) (cs : List (PCol α)) (hv : ∀ c ∈ cs, c.validate = .ok ())
